@@ -10,6 +10,37 @@ use serde_json::json;
 
 pub struct C10;
 
+const LIFETIME_ITEMS: &str = r#"
+#[typeshare]
+pub struct BorrowedText<'a> {
+    pub text: &'a str,
+}
+
+#[typeshare]
+pub struct Matrix<const N: usize> {
+    pub cells: Vec<u8>,
+}
+
+#[typeshare]
+pub struct UsesLifetimes<'a> {
+    pub one: BorrowedText<'a>,
+    pub many: Vec<BorrowedText<'static>>,
+    pub grid: Matrix<3>,
+    pub opt: Option<Matrix<4>>,
+    pub keyed: HashMap<String, BorrowedText<'a>>,
+}
+
+#[typeshare]
+pub type AliasOfBorrowed<'a> = BorrowedText<'a>;
+
+#[typeshare]
+#[serde(tag = "type", content = "content")]
+pub enum LifetimeEvent<'a> {
+    Seen(BorrowedText<'a>),
+    Grid { cells: Matrix<2> },
+}
+"#;
+
 fn gen_cfg() -> GenCfg {
     let mut g = GenCfg::base();
     g.max_items = 6;
@@ -97,8 +128,16 @@ impl SubCheck for C10 {
         (gen::program(&gen_cfg()), cfg_strategy()).prop_map(|(items, cfg)| ProgCase { items, cfg }).boxed()
     }
     fn eval(&self, run: &Run, case: &ProgCase, w: &mut Worker, counting: bool) -> Vec<Violation> {
-        let src = items_src(&case.items);
-        let feats = features(&case.items);
+        let mut src = items_src(&case.items);
+        // a third of the programs also use lifetime and const generics: argument lists typeshare has to drop entirely
+        let lifetimes = case.items.first().map(|i| i.layout % 3 == 0).unwrap_or(false);
+        if lifetimes {
+            src.push_str(LIFETIME_ITEMS);
+        }
+        let mut feats = features(&case.items);
+        if lifetimes {
+            feats.push("lifetime-and-const-generics");
+        }
         if counting {
             for f in &feats {
                 run.label(&format!("feature/{f}"));
